@@ -8,6 +8,7 @@ from ..e6_algebra import to_rat, Rat, Poly, NotScalarArithmetic, forward_env
 from ..e2_tables import TableEval
 from ..e3_axes import Interp, Arr, Num, Ax, NoneV, Tup, Gen, Obj, is_top
 from ..scenarios import symbolic_estimator, nonusage, dedup_events
+from ..match import expect_assign, expect_call, canon_equal
 
 PROP = "C10"
 LEVEL = "other"
@@ -147,12 +148,13 @@ def run(pm, ctx):
                 bdef = ds[0]
         tab = te.class_constraints(pm.classes["DiscriminativeModel"])
         pos = all(d.kind == "none" or (d.kind == "interval" and d.lo >= 1) for d in tab.get("batch_size", []))
-        if bdef is not None and norm_src(bdef.value) in ("len(X) if self.batch_size is None else self.batch_size",
-                                                          "self.batch_size if self.batch_size is not None else len(X)") and pos:
+        if bdef is None:
+            ctx.unrecognised("C10-a", f"{qn}: batch size", "the stride has no single definition")
+        elif norm_src(bdef.value) in ("len(X) if self.batch_size is None else self.batch_size",
+                                      "self.batch_size if self.batch_size is not None else len(X)") and pos:
             ctx.ok("C10-a", f"{qn}: batch size = batch_size or len(X), validated >= 1")
         else:
-            ctx.violation("C10-a", bu.relpath, qn, norm_src(bdef) if bdef is not None else "batch_size", "the stride is not the validated, positive "
-                          "batch_size (or len(X) when None)", line=f.lineno)
+            ctx.violation("C10-a", bu.relpath, qn, norm_src(bdef), "the stride is not the validated, positive batch_size (or len(X) when None)", line=bdef.lineno)
         # ---- b alignment (structural): one index variable for rows and both affinity axes
         ys = [n for n in ast.walk(w) if isinstance(n, ast.Yield)]
         site = f"{qn}: alignment"
@@ -246,8 +248,13 @@ def run(pm, ctx):
         else:
             ctx.violation("C10-c", bu.relpath, "DiscriminativeModel.fit", norm_src(inner[0].iter), "_batchify does not receive the random state of this fit", line=inner[0].lineno,
                           site="fit: rng")
+    elif len(inner) == 1 and len(outer) == 1:
+        ctx.violation("C10-c", bu.relpath, "DiscriminativeModel.fit", norm_src(outer[0])[:120], "the epoch loop does more than iterate once over the batches of _batchify", line=outer[0].lineno, site=site)
+    elif len(inner) == 1:
+        ctx.violation("C10-c", bu.relpath, "DiscriminativeModel.fit", norm_src(inner[0].iter), "the batch loop is not nested in exactly one `for ... in range(self.max_iter)`: fit does not "
+                      "perform max_iter epochs", line=inner[0].lineno, site=site)
     else:
-        ctx.violation("C10-c", bu.relpath, "DiscriminativeModel.fit", "training loops", "fit is not `for range(max_iter): for batch in _batchify`", line=ff.lineno, site=site)
+        ctx.unrecognised("C10-c", site, "no loop over self._batchify(...)")
 
     # ---- d categorical override
     cu = pm.unit("gemclus.nonparametric._categorical_models")
@@ -346,40 +353,54 @@ def run(pm, ctx):
     part = check_partition(ctx, "C10-f", su, "compute_val_score", vf)
     if part:
         w = part["loop"]
-        src = [norm_src(s) for s in ast.walk(w) if isinstance(s, ast.stmt)]
         j, b = part["counter"], sorted(part["bnames"])[0]
         sl = f"{j}:{j} + {b}"
-        probs = []
-        if f"X_batch = X[{sl}]" not in src:
-            probs.append("X_batch is not the block of rows")
-        if f"affinity = y[{sl}][:, {sl}]" not in src:
-            probs.append("the precomputed affinity block does not use the same slice on rows and columns")
-        if "y_pred = clf.predict_proba(X_batch)" not in src:
-            probs.append("predictions are not those of the block")
-        if "validation_gemini += gemini_objective(y_pred, affinity) * len(X_batch)" not in src:
-            probs.append("block scores are not weighted by the block size")
-        allsrc = [norm_src(s) for s in vf.body]
-        if "validation_gemini /= len(X)" not in allsrc or "validation_gemini = 0" not in allsrc:
-            probs.append("the weighted sum is not initialised to 0 / divided by len(X)")
-        if allsrc.index("validation_gemini /= len(X)") < allsrc.index(norm_src(w)) if "validation_gemini /= len(X)" in allsrc else False:
-            probs.append("division before the loop")
-        if probs:
-            ctx.violation("C10-f", su.relpath, "compute_val_score", norm_src(w)[:200], "; ".join(probs), line=w.lineno, site="compute_val_score: blocks")
+        expect_assign(ctx, "C10-f", su, "compute_val_score", w, "X_batch", [f"X[{sl}]"], "compute_val_score: rows of the block", "the validation block is not the rows [j:j+b] of X")
+        ya = [s_ for s_ in ast.walk(w) if isinstance(s_, ast.Assign) and norm_src(s_.targets[0]) == "affinity" and norm_src(s_.value).startswith("y[")]
+        if not ya:
+            ctx.unrecognised("C10-f", "compute_val_score: precomputed block", "no `affinity = y[...]`")
+        elif norm_src(ya[0].value) == f"y[{sl}][:, {sl}]" or norm_src(ya[0].value) == f"y[{sl}, {sl}]":
+            ctx.ok("C10-f", "compute_val_score: precomputed block", "same slice on rows and columns")
         else:
-            ctx.ok("C10-f", "compute_val_score: aligned sequential blocks, weights len(block), divided by len(X)")
+            ctx.violation("C10-f", su.relpath, "compute_val_score", norm_src(ya[0]), "the precomputed affinity block does not use the block's slice on both rows and columns",
+                          line=ya[0].lineno, site="compute_val_score: precomputed block")
+        expect_assign(ctx, "C10-f", su, "compute_val_score", w, "y_pred", ["clf.predict_proba(X_batch)"], "compute_val_score: predictions of the block", "predictions are not those of the block")
+        acc = [s_ for s_ in ast.walk(w) if isinstance(s_, ast.AugAssign) and norm_src(s_.target) == "validation_gemini"]
+        if not acc:
+            ctx.unrecognised("C10-f", "compute_val_score: accumulation", "no accumulation into validation_gemini")
+        elif isinstance(acc[0].op, ast.Add) and canon_equal(acc[0].value, "gemini_objective(y_pred, affinity) * len(X_batch)"):
+            ctx.ok("C10-f", "compute_val_score: block scores weighted by len(block)")
+        else:
+            ctx.violation("C10-f", su.relpath, "compute_val_score", norm_src(acc[0]), "block scores are not accumulated with weight len(block)", line=acc[0].lineno, site="compute_val_score: accumulation")
+        fin = [s_ for s_ in vf.body if isinstance(s_, ast.AugAssign) and norm_src(s_.target) == "validation_gemini"]
+        ini = [s_ for s_ in vf.body if isinstance(s_, ast.Assign) and norm_src(s_.targets[0]) == "validation_gemini"]
+        if not fin or not ini:
+            ctx.unrecognised("C10-f", "compute_val_score: normalisation", "no initialisation / final division at function level")
+        elif isinstance(fin[0].op, ast.Div) and canon_equal(fin[0].value, "len(X)") and canon_equal(ini[0].value, "0") and fin[0].lineno > w.lineno and ini[0].lineno < w.lineno:
+            ctx.ok("C10-f", "compute_val_score: starts at 0, divided by len(X) after the loop")
+        else:
+            ctx.violation("C10-f", su.relpath, "compute_val_score", norm_src(fin[0]), "the weighted sum is not initialised to 0 before and divided by len(X) after the loop", line=fin[0].lineno,
+                          site="compute_val_score: normalisation")
         # dynamic branch: affinity recomputed on the block with the selected features
-        if "affinity = gemini_objective.compute_affinity(X_batch[:, selection_mask])" in src:
+        ca = [n for n in ast.walk(w) if isinstance(n, ast.Call) and (call_name(n) or "").endswith(".compute_affinity")]
+        if not ca:
+            ctx.unrecognised("C10-f", "compute_val_score: computed affinity", "no compute_affinity call in the loop")
+        elif ca[0].args and norm_src(ca[0].args[0]).startswith("X_batch"):
             ctx.ok("C10-f", "compute_val_score: computed affinity uses the rows of the same block")
         else:
-            ctx.violation("C10-f", su.relpath, "compute_val_score", "compute_affinity", "the computed affinity is not that of the block", line=w.lineno,
+            ctx.violation("C10-f", su.relpath, "compute_val_score", norm_src(ca[0]), "the computed affinity is not that of the block's rows", line=ca[0].lineno,
                           site="compute_val_score: computed affinity")
     # _path passes the model's batch size (or len(X))
     pf = su.func("_path")
     psrc = [norm_src(s) for s in ast.walk(pf) if isinstance(s, ast.stmt)]
-    if "batch_size = clf.batch_size" in psrc and "batch_size = len(X)" in psrc:
+    bs = [s_ for s_ in ast.walk(pf) if isinstance(s_, ast.Assign) and norm_src(s_.targets[0]) == "batch_size"]
+    vals = sorted(norm_src(s_.value) for s_ in bs)
+    if not bs:
+        ctx.unrecognised("C10-f", "_path: block size", "no definition of batch_size")
+    elif vals == ["clf.batch_size", "len(X)"] or vals in (["len(X) if clf.batch_size is None else clf.batch_size"], ["clf.batch_size if clf.batch_size is not None else len(X)"]):
         ctx.ok("C10-f", "_path: validation block size = batch_size or len(X)")
     else:
-        ctx.violation("C10-f", su.relpath, "_path", "batch_size", "validation block size is not batch_size or len(X)", line=pf.lineno, site="_path: block size")
+        ctx.violation("C10-f", su.relpath, "_path", norm_src(bs[0]), f"the validation block size is {vals}, not batch_size or len(X)", line=bs[0].lineno, site="_path: block size")
 
 
 def _stmt(n):
